@@ -227,7 +227,7 @@ def run(tier, seed):
             if k not in picked:
                 picked[k] = h
             if tier == "thorough":
-                k2 = (ids[-1], o.get("mkey"))
+                k2 = (ids[-1], o.get("mcls"))
                 if k2 not in picked:
                     picked[k2] = h
 
